@@ -255,6 +255,7 @@ impl Check for C19 {
         while let Some(seq) = stack.pop() {
             // sequences of sleeps only, or ending in a sleep, tell nothing new
             if !matches!(seq.last(), Some(Op::SleepHalf | Op::SleepTwo)) {
+                crate::pool::crumb(|| format!("rate limiter sequence {:?}", seq.iter().map(op_json).collect::<Vec<_>>()));
                 out.evaluations += 1;
                 match run_sequence(burst, block, &seq) {
                     Ok(shape) => out.class(format!("{} {}", if block { "block" } else { "error" }, shape.chars().take(8).collect::<String>())),
